@@ -1,4 +1,7 @@
 """C14 — every character reference resolves to its WHATWG value."""
+import sys
+if hasattr(sys, "set_int_max_str_digits"):
+    sys.set_int_max_str_digits(0)      # numeric references with tens of thousands of digits (size-only family)
 import json
 import os
 from props import tokcommon as tc
